@@ -6,6 +6,7 @@ import contextlib
 import inspect
 import os
 import re
+import unicodedata
 from collections import namedtuple
 from collections.abc import Callable
 from copy import copy
@@ -205,6 +206,21 @@ class Color:
 DEFAULT_COLOR: Color = Color.default()
 
 
+# repr() escapes every character str.isprintable() rejects; from_raw() reads back
+# only what tty_escape() wrote, so all but the control characters stay as they are
+_REPR_ESCAPE_RE = re.compile(
+    r"\\\\|\\x[0-9a-f]{2}|\\u[0-9a-f]{4}|\\U[0-9a-f]{8}",
+)
+
+
+def _repr_unescape(m: re.Match[str]) -> str:
+    esc = m.group()
+    if esc == "\\\\":
+        return esc
+    c = chr(int(esc[2:], 16))
+    return esc if unicodedata.category(c) in {"Cc", "Cs"} else c
+
+
 class Style(str):
     """A composable ANSI style builder.
 
@@ -300,7 +316,7 @@ class Style(str):
             # NOTE Meant for Style.parse() not for f-strings
             text = f"f{{{self.value}:{self._fmt}}}"
         text = self.apply_style(text, force=True)
-        return tty_escape(repr(text)[1:-1])
+        return tty_escape(_REPR_ESCAPE_RE.sub(_repr_unescape, repr(text)[1:-1]))
 
     def __len__(self) -> int:
         return visual_len(str(self))
